@@ -1,7 +1,7 @@
 (** The definitions GENERATED from the running code (LeaspyGen.GenC08, regenerated on every run) are instances of the
     code shapes of LikelihoodCode.v / of the closed form proved in DensityProofs.v; the property theorems about the
     generated definitions follow.  A semantic edit of the code changes GenC08.v and one of the proofs below stops compiling. *)
-From Coq Require Import Reals Lra.
+From Coq Require Import Reals Lra List.
 From Coquelicot Require Import Coquelicot.
 From Leaspy Require Import Base.RAux Formulas.TorchDist Formulas.Density Formulas.LikelihoodCode Formulas.DensityProofs.
 From LeaspyGen Require Import GenC08.
@@ -121,11 +121,73 @@ Theorem attach_gaussian y model noise_std :
   gen_attach_gaussian y model noise_std = - ln (normal_pdf y model noise_std) + (c32 - ln (sqrt (2 * PI))).
 Proof. intros. change (gen_attach_gaussian y model noise_std) with (gen_normal_nll y model noise_std). apply normal_nll. assumption. Qed.
 
-(** * Bernoulli (model of torch's log_prob, see TorchDist.v) *)
+(** * Every latent variable with a Normal prior, of every shipped model kind (list regenerated by introspection) *)
+
+Theorem prior_all_latents v m s :
+  0 < s -> List.Forall (fun f : R -> R -> R -> R => f v m s = - ln (normal_pdf v m s) + (c32 - ln (sqrt (2 * PI)))) gen_regul_list.
+Proof.
+  intros H. unfold gen_regul_list. repeat (apply List.Forall_cons; [exact (normal_nll v m s H) |]). apply List.Forall_nil.
+Qed.
+
+(** one cluster coordinate of MixtureNormalFamily._nll (priors of xi, tau, sources in the mixture model): the Gaussian nll of that cluster *)
+Theorem mixture_cluster x loc scale :
+  0 < scale -> gen_mixture_cluster_nll x loc scale = - ln (normal_pdf x loc scale) + (c32 - ln (sqrt (2 * PI))).
+Proof. intros. change (gen_mixture_cluster_nll x loc scale) with (gen_normal_nll x loc scale). apply normal_nll. assumption. Qed.
+
+(** * Bernoulli: the traced path StatelessDistributionFamilyFromTorchDistribution._nll -> torch.distributions.Bernoulli.log_prob
+      (python code of torch followed by the tracer; the kernel model is in TorchDist.v) *)
+
+Lemma gen_bernoulli_shape y p : gen_bernoulli_nll y p = code_bernoulli_nll (1 / 8388608) (8388607 / 8388608) y p.
+Proof. reflexivity. Qed.
+
+Lemma gen_bernoulli64_shape y p :
+  gen_bernoulli_nll64 y p = code_bernoulli_nll (1 / 4503599627370496) (4503599627370495 / 4503599627370496) y p.
+Proof. reflexivity. Qed.
 
 Theorem bernoulli y p :
-  0 < p < 1 -> y = 0 \/ y = 1 -> gen_bernoulli_nll y p = - ln (bernoulli_pmf y p).
-Proof. intros. unfold gen_bernoulli_nll. apply bernoulli_nll_is_neg_log_pmf; assumption. Qed.
+  1 / 8388608 <= p <= 8388607 / 8388608 -> y = 0 \/ y = 1 -> gen_bernoulli_nll y p = - ln (bernoulli_pmf y p).
+Proof. intros. rewrite gen_bernoulli_shape. apply code_bernoulli_interior; try assumption; lra. Qed.
+
+Theorem bernoulli_f64 y p :
+  1 / 4503599627370496 <= p <= 4503599627370495 / 4503599627370496 -> y = 0 \/ y = 1 ->
+  gen_bernoulli_nll64 y p = - ln (bernoulli_pmf y p).
+Proof. intros. rewrite gen_bernoulli64_shape. apply code_bernoulli_interior; try assumption; lra. Qed.
+
+(** for EVERY probability argument (saturated, or even outside [0,1]): the negative log-pmf at the clamped probability, finite *)
+Theorem bernoulli_every_p y p :
+  y = 0 \/ y = 1 ->
+  gen_bernoulli_nll y p = - ln (bernoulli_pmf y (clamp_prob (1 / 8388608) (8388607 / 8388608) p)) /\
+  0 <= gen_bernoulli_nll y p <= - ln (1 / 8388608) /\
+  gen_bernoulli_nll64 y p = - ln (bernoulli_pmf y (clamp_prob (1 / 4503599627370496) (4503599627370495 / 4503599627370496) p)) /\
+  0 <= gen_bernoulli_nll64 y p <= - ln (1 / 4503599627370496).
+Proof.
+  intros Hy. rewrite gen_bernoulli_shape, gen_bernoulli64_shape.
+  pose proof (code_bernoulli_bounds (1 / 8388608) (8388607 / 8388608) y p) as B32.
+  pose proof (code_bernoulli_bounds (1 / 4503599627370496) (4503599627370495 / 4503599627370496) y p) as B64.
+  rewrite Rmin_left in B32, B64 by lra.
+  split; [apply code_bernoulli_clamped; try assumption; lra|].
+  split; [apply B32; try assumption; lra|].
+  split; [apply code_bernoulli_clamped; try assumption; lra|].
+  apply B64; try assumption; lra.
+Qed.
+
+(** a probability saturated in float32 with the matching outcome costs -ln(1 - 2^-23) (one rounding unit), not 0 * ln 0 *)
+Theorem bernoulli_saturated p :
+  (8388607 / 8388608 <= p -> gen_bernoulli_nll 1 p = - ln (8388607 / 8388608)) /\
+  (p <= 1 / 8388608 -> gen_bernoulli_nll 0 p = - ln (8388607 / 8388608)) /\
+  0 <= - ln (8388607 / 8388608) <= 1 / 8388607.
+Proof.
+  pose proof (code_bernoulli_saturated (1 / 8388608) (8388607 / 8388608) p) as [Hhi Hlo]; try lra.
+  split; [intros H; rewrite gen_bernoulli_shape; apply Hhi; exact H|].
+  split; [intros H; rewrite gen_bernoulli_shape; destruct (Hlo H) as [E _]; rewrite E; f_equal; f_equal; lra|].
+  split.
+  - assert (ln (8388607 / 8388608) <= ln 1) by (apply ln_le; lra). rewrite ln_1 in *. lra.
+  - (* -ln(1 - e) = ln(1 + e/(1-e)) <= e/(1-e) *)
+    replace (- ln (8388607 / 8388608)) with (ln (1 + 1 / 8388607)).
+    + assert (Hx : ln (1 + 1 / 8388607) < ln (exp (1 / 8388607))) by (apply ln_increasing; [lra | apply exp_ineq1; lra]).
+      rewrite ln_exp in Hx. lra.
+    + replace (1 + 1 / 8388607) with (/ (8388607 / 8388608)) by (field; lra). rewrite ln_Rinv by lra. reflexivity.
+Qed.
 
 Theorem route_bernoulli y p : gen_route_bernoulli_nll y p = gen_bernoulli_nll y p.
 Proof. reflexivity. Qed.
@@ -221,6 +283,39 @@ Proof.
   split; [exact E|]. etransitivity; [apply gen_joint_event_total | exact E].
 Qed.
 
+(** * The event attachment of a real joint model WITH sources (one source, one event), read through its own dependency graph:
+      survival shift = sources * zeta (MatMul), nu = exp(-n_log_nu), rho = exp(log_rho) *)
+
+Lemma gen_joint_src_event_shape event delta n_log_nu log_rho xi tau sources zeta :
+  gen_joint_src_event_nll_ind event delta n_log_nu log_rho xi tau sources zeta
+  = gen_weibull_src_nll event delta (gen_joint_nu n_log_nu) (gen_joint_rho log_rho) xi tau (gen_joint_src_shift sources zeta).
+Proof. tie. Qed.
+
+Theorem joint_src_event event delta n_log_nu log_rho xi tau sources zeta :
+  0 < event - tau -> delta <> 0 ->
+  gen_joint_src_event_nll_ind event delta n_log_nu log_rho xi tau sources zeta
+  = - ln (weibull_pdf (nu_tilde_src (exp (- n_log_nu)) (exp log_rho) xi (sources * zeta)) (exp log_rho) (event - tau)).
+Proof.
+  intros Ht Hd. rewrite gen_joint_src_event_shape, gen_joint_nu_eq. unfold gen_joint_rho, gen_joint_src_shift, weibull_pdf.
+  apply weibull_src_event; try assumption; apply exp_pos.
+Qed.
+
+Theorem joint_src_censored event delta n_log_nu log_rho xi tau sources zeta :
+  delta = 0 ->
+  gen_joint_src_event_nll_ind event delta n_log_nu log_rho xi tau sources zeta
+  = - ln (weibull_survival (nu_tilde_src (exp (- n_log_nu)) (exp log_rho) xi (sources * zeta)) (exp log_rho) (event - tau)).
+Proof.
+  intros Hd. rewrite gen_joint_src_event_shape, gen_joint_nu_eq. unfold gen_joint_rho, gen_joint_src_shift.
+  apply weibull_src_censored; try assumption; apply exp_pos.
+Qed.
+
+Theorem joint_src_event_before_ref event delta n_log_nu log_rho xi tau sources zeta :
+  event - tau <= 0 -> delta <> 0 ->
+  gen_joint_src_event_nll_ind event delta n_log_nu log_rho xi tau sources zeta = INFINITY_c.
+Proof.
+  intros Ht Hd. rewrite gen_joint_src_event_shape. unfold gen_joint_rho. apply src_event_before_ref; try assumption; apply exp_pos.
+Qed.
+
 (** * Reparametrisation = documented formulas *)
 
 Theorem reparam nu rho xi tau u x :
@@ -266,6 +361,15 @@ Proof. apply weibull_src_event; lra. Qed.
 
 Example ex_bernoulli : gen_bernoulli_nll 1 (7/10) = - ln (bernoulli_pmf 1 (7/10)) /\ gen_bernoulli_nll 0 (7/10) = - ln (bernoulli_pmf 0 (7/10)).
 Proof. split; apply bernoulli; lra || (right; reflexivity) || (left; reflexivity). Qed.
+
+Example ex_bernoulli_saturated : gen_bernoulli_nll 1 1 = - ln (8388607 / 8388608) /\ gen_bernoulli_nll 0 0 = - ln (8388607 / 8388608).
+Proof. split; apply bernoulli_saturated; lra. Qed.
+
+Example ex_regul_list : (36 <= length gen_regul_list)%nat /\ In gen_regul_jointsrc_zeta gen_regul_list.
+Proof. split; [vm_compute; repeat constructor | unfold gen_regul_list; simpl; tauto]. Qed.
+
+Example ex_joint_src_before : gen_joint_src_event_nll_ind 69 1 (-2) (1/3) 0 70 (1/2) (-1) = INFINITY_c.
+Proof. apply joint_src_event_before_ref; lra. Qed.
 
 Example ex_joint_before : gen_joint_event_nll_ind 69 1 (-2) (1/3) 0 70 = INFINITY_c.
 Proof. apply joint_event_before_ref; lra. Qed.
